@@ -112,6 +112,10 @@ func (op *FsTxn) GetInodeInumFree(inum common.Inum) *inode.Inode {
 }
 
 func (op *FsTxn) GetInodeInum(inum common.Inum) *inode.Inode {
+	if inum >= op.Fs.Super.NInode() {
+		// not an inode number: the address would lie outside the inode table
+		return nil
+	}
 	ip := op.GetInodeInumFree(inum)
 	if ip == nil {
 		return nil
